@@ -1481,6 +1481,189 @@ class DeepSite(Site):
 
 
 # ---------------------------------------------------------------------------
+# serialization at any depth (UnionDeepEnc.v)
+# ---------------------------------------------------------------------------
+def ident_packer(tp) -> bool:
+    """the packer expression of tp is "value" """
+    k, a = deep_kind(tp)
+    if k == "scalar":
+        return True
+    if k == "opt":
+        return ident_packer(a)
+    if k == "union":
+        return all(ident_packer(m) for m in a)
+    return False
+
+
+def structural(tp) -> bool:
+    """a container emitted as comprehension / indexing because an item packer is not the identity"""
+    k, a = deep_kind(tp)
+    if k in ("list", "tupv", "dict"):
+        return not ident_packer(a) and has_union(a)
+    if k == "tupf":
+        return any(has_union(x) for x in a) and any(not ident_packer(x) for x in a)
+    return False
+
+
+def gen_deep_value(rng, tp) -> str:
+    k, a = deep_kind(tp)
+    if k == "scalar":
+        return "None" if a is NoneType else rng.choice(ENCODE_VALUES[a.__name__])
+    if k == "leaf":
+        return rng.choice(ENCODE_VALUES[tp.__name__])
+    if k == "opt":
+        return "None" if rng.random() < 0.3 else gen_deep_value(rng, a)
+    if k == "union":
+        return gen_deep_value(rng, rng.choice(a))
+    if k == "list":
+        return "[" + ", ".join(gen_deep_value(rng, a) for _ in range(rng.choice([0, 1, 2, 3]))) + "]"
+    if k == "tupv":
+        return "(" + "".join(gen_deep_value(rng, a) + ", " for _ in range(rng.choice([0, 1, 2]))) + ")"
+    if k == "tupf":
+        return "(" + "".join(gen_deep_value(rng, x) + ", " for x in a) + ")"
+    return "{" + ", ".join(f"{key!r}: {gen_deep_value(rng, a)}" for key in rng.sample(["k", "p", "q"], rng.choice([0, 1, 2]))) + "}"
+
+
+def ref_enc_deep(tp, v, mem: Members):
+    """REFERENCE: the member a value belongs to (first conforming, declaration order) packs it"""
+    k, a = deep_kind(tp)
+    if k in ("scalar", "leaf") or not (k in ("union", "opt") or structural(tp)):
+        r = mem.encode(NoneType if tp is None else tp, v, False)
+        if r[0] != "ok":
+            raise ValueError(v)
+        return r[1]
+    if k == "opt":
+        return None if v is None else ref_enc_deep(a, v, mem)
+    if k == "union":
+        m = next((m for m in a if conforms(m, v)), None)
+        if m is None:
+            raise ValueError(v)
+        return None if m is NoneType else ref_enc_deep(m, v, mem)
+    if k in ("list", "tupv"):
+        return [ref_enc_deep(a, x, mem) for x in v]
+    if k == "tupf":
+        return [ref_enc_deep(t, v[i], mem) for i, t in enumerate(a)]
+    return {key: ref_enc_deep(a, x, mem) for key, x in v.items()}
+
+
+def visit_unions_enc(tp, v):
+    k, a = deep_kind(tp)
+    if k == "opt":
+        if v is not None:
+            yield from visit_unions_enc(a, v)
+    elif k == "union":
+        yield (tp, a, v)
+        m = next((m for m in a if conforms(m, v)), None)
+        if m is not None and m not in SCALARS:
+            yield from visit_unions_enc(m, v)
+    elif k in ("list", "tupv") and isinstance(v, (list, tuple)):
+        for x in v:
+            yield from visit_unions_enc(a, x)
+    elif k == "tupf" and isinstance(v, tuple) and len(v) == len(a):
+        for t, x in zip(a, v):
+            yield from visit_unions_enc(t, x)
+    elif k == "dict" and isinstance(v, dict):
+        for x in v.values():
+            yield from visit_unions_enc(a, x)
+
+
+def coq_pty(tp, subs, mem: Members) -> str:
+    k, a = deep_kind(tp)
+    if k == "opt":
+        return f"(QOpt {coq_pty(a, subs, mem)})"
+    if k == "union":
+        return "(QU [" + "; ".join(f"({i + 1}%nat, {coq_pty(m, subs, mem)})" for i, m in enumerate(a)) + "])"
+    if structural(tp):
+        if k == "list":
+            return f"(QList {coq_pty(a, subs, mem)})"
+        if k == "tupv":
+            return f"(QTupV {coq_pty(a, subs, mem)})"
+        if k == "tupf":
+            return "(QTupF [" + "; ".join(coq_pty(t, subs, mem) for t in a) + "])"
+        return f"(QDict {coq_pty(a, subs, mem)})"
+    t2 = NoneType if tp is None else tp
+    cname = "NoneType" if t2 is NoneType else getattr(typing.get_origin(t2) or t2, "__name__", "x")
+    rows = "; ".join(f"({to_uv(x)}, {to_ouv(mem.encode(t2, x, False))})" for x in subs)
+    return f"(QLeaf {coq_str(cname)} {'true' if t2 in SCALARS else 'false'} (tb [{rows}]))"
+
+
+def deep_enc_part(ctx: vlib.Ctx, mod, mem: Members):
+    rng = ctx.rng
+    qcases, qinfo = [], []
+    curated = ["List[Union[int, date]]", "Dict[str, Optional[Union[int, date]]]", "Tuple[Union[date, str], ...]",
+               "Union[List[Union[int, date]], str]", "Dict[str, Union[List[int], List[date]]]", "List[Union[Decimal, int]]",
+               "Tuple[Optional[date], Union[str, UUID, None]]", "Union[Dict[str, Union[date, int]], List[Optional[date]], str]",
+               "List[Optional[Union[DC1, List[int]]]]", "Optional[List[Union[Weird, str]]]", "List[Union[UUID, datetime]]",
+               "Dict[str, Tuple[Union[Num, int], Union[int, Num]]]"]
+    specs = list(curated)
+    for _ in range(ctx.budget(150, 1200)):
+        for _try in range(8):
+            e = gen_deep_type(rng, rng.choice([2, 2, 3]))
+            for _f in getattr(typing, "_cleanups", []):
+                _f()
+            try:
+                if has_union(eval(e, mod.__dict__)) and len(e) < 160:
+                    specs.append(e)
+                    break
+            except Exception:
+                continue
+    for ti, expr in enumerate(specs):
+        try:
+            site = Site(mod, expr, "codec") if deep_kind(eval(expr, mod.__dict__))[0] in ("union", "opt") else DeepSite(mod, expr, "codec")
+        except Exception as e:
+            ctx.notes.append(f"deep schema not built: {expr}: {type(e).__name__}: {e}"[:200])
+            continue
+        tp = site.tp
+        for _ in range(ctx.budget(4, 6)):
+            vx = gen_deep_value(rng, tp)
+            try:
+                v = eval(vx, mod.__dict__)
+            except Exception:
+                continue
+            if not conforms(tp, v):
+                continue
+            expected = outcome(ref_enc_deep, tp, v, mem)
+            if expected[0] != "ok":
+                continue
+            observed = outcome(site.encode, v)
+            if same(observed, expected):
+                cls = "agree"
+            else:
+                node_cls = []
+                for utp, members, vv in visit_unions_enc(tp, v):
+                    j = next((k for k, mm in enumerate(members) if conforms(mm, vv)), None)
+                    if j is None:
+                        node_cls.append("other")
+                        continue
+                    menc = lambda m, x: mem.encode(m, x, False)
+                    exp_n = ("ok", None) if members[j] is NoneType else menc(members[j], vv)
+                    node_cls.append(classify_encode(site, members, j, vv, mem.encode(utp, vv, False), exp_n, menc))
+                bad = [c for c in node_cls if c != "agree"]
+                cls = bad[0] if bad and all(c == "union-encode-untyped-try" for c in bad) else "other"
+            ctx.count(("deep-enc", expr, cls, observed[0]))
+            ctx.hist("deep_encode_outcome", cls + "/" + observed[0])
+            if cls != "agree":
+                ctx.fail(f"encode {expr} via codec <- {vx}: got {show(observed)}, property says {show(expected)}",
+                         dict(site.replay_base(), op="encode", input=vx, observed=show(observed), expected=show(expected)),
+                         {"kind": cls, "op": "encode"} if cls != "other" else {"kind": cls, "op": "encode", "deep": True})
+            subs = subvalues(v)
+            if not ascii_only_str(subs):
+                continue
+            qcases.append(f"QCA {coq_pty(tp, subs, mem)} {to_uv(v)} {to_ouv(observed)} {to_ouv(expected)}")
+            qinfo.append((expr, vx, show(observed), show(expected), cls))
+    corr(ctx, "deep-encode-model-vs-impl", qcases, qinfo, "qcase", ["qcase_ok", "qcase_ok_model", "qcase_ok_ref", "qcase_thm"],
+         stale_fun="qcase_stale", imports="UnionModel UnionDeep UnionDeepEnc", shard=150, needs=("theories/UnionDeepEnc.vo",))
+
+
+def ascii_only_str(subs) -> bool:
+    """values the structural model can represent: ASCII text, and no instance of a str/list/tuple/dict SUBCLASS
+    (a str-mixin enum member is iterable like a str, bytes iterate as ints: the (class, repr) encoding of objects does not show that)"""
+    return (all((type(x) is not str) or x.isascii() for x in subs)
+            and all(not isinstance(x, (bytes, bytearray)) for x in subs)     # iterable, but an opaque object in the model
+            and all(type(x) in (str, list, tuple, dict) or not isinstance(x, (str, list, tuple, dict)) for x in subs))
+
+
+# ---------------------------------------------------------------------------
 # K19: the translated emission loop vs the method text the real generator produces
 # ---------------------------------------------------------------------------
 FB_TEXT = {"int(value)": "KInt", "float(value)": "KFloat", "bool(value)": "KBool", "str(value)": "KStr", "None": "KNone"}
@@ -1570,12 +1753,169 @@ def k19_part(ctx: vlib.Ctx, mod):
          imports="UnionModel UnionEmit K19Cases", gen_imports="From VerifGen Require Import K19.", needs=("theories/K19Cases.vo",))
 
 
+# ---------------------------------------------------------------------------
+# K21: the translated loops of pack_union vs the method text the real generator produces
+# ---------------------------------------------------------------------------
+def capture_pack_union_source(mod, tp):
+    import builtins
+    import mashumaro.core.meta.types.pack as _pack
+    got = []
+
+    def rec(src, g=None, l=None):
+        if "def __pack_union_" in src or "def __pack_type_var_" in src:
+            got.append(src)
+        return builtins.exec(src, g, l)
+    old = _pack.__dict__.get("exec")
+    _pack.exec = rec
+    try:
+        mod.__dict__["BasicEncoder"](tp)
+    finally:
+        if old is None:
+            del _pack.exec
+        else:
+            _pack.exec = old
+    return got[-1] if got else None
+
+
+def parse_pack_source(src: str):
+    lines = [x.strip() for x in src.splitlines()[1:] if x.strip() and not x.strip().startswith("setattr(")]
+    codes, i = [], 0
+    while i < len(lines):
+        ln = lines[i]
+        m1 = re.match(r"if value\.__class__ is (\w+):$", ln)
+        m2 = re.match(r"if value\.__class__ in \(([\w, ]+)\):$", ln)
+        if (m1 or m2) and i + 1 < len(lines) and lines[i + 1] == "return value":
+            names = [m1.group(1)] if m1 else [x.strip() for x in m2.group(1).split(",")]
+            codes.append(f"(QIdent [{'; '.join(coq_str(n) for n in names)}] {'true' if m2 else 'false'})"); i += 2
+        elif ln == "try:" and i + 3 < len(lines) and lines[i + 1].startswith("return ") and lines[i + 2] == "except Exception:" and lines[i + 3] == "pass":
+            codes.append("QTry"); i += 4
+        elif ln.startswith("raise "):
+            codes.append("QRaise"); i += 1
+        else:
+            return None
+    return codes
+
+
+def k21_part(ctx: vlib.Ctx, mod):
+    """(T) validation of kernel K21: line shapes (and the class names of the identity block) of the generated
+    pack method = what the translated loops (coq/gen/K21.v) emit for the same member list."""
+    if not ctx.kernel_report.get("K21", {}).get("ok", False):
+        ctx.not_shown("kernel K21", str(ctx.kernel_report.get("K21", {}).get("error")))
+        return
+    rng = ctx.rng
+    exprs = [e for e in CURATED_ENC_UNIONS if not e.startswith("Optional[")]
+    for _ in range(ctx.budget(120, 800)):
+        e, ent = gen_union_expr(rng, encode=True)
+        if ent != "typevar":
+            exprs.append(e)
+    cases, info, skipped = [], [], 0
+    for expr in exprs:
+        for _f in getattr(typing, "_cleanups", []):
+            _f()
+        tp = eval(expr, mod.__dict__)
+        members = list(typing.get_args(tp))
+        if typing.get_origin(tp) is not typing.Union or (len(members) == 2 and NoneType in members):
+            continue
+        src = capture_pack_union_source(mod, tp)
+        if src is None:
+            codes = ["QIdentity"]           # no method compiled: the union is the identity
+        else:
+            codes = parse_pack_source(src)
+            if codes is None:
+                ctx.not_shown("kernel K21 validation", f"unparsable pack method for {expr}: {src[:300]}")
+                continue
+        nonident = [m for m in members if not is_identity_packer(m)]
+        if codes.count("QTry") != len(nonident):
+            skipped += 1      # two members rendered to one expression
+            continue
+        lite = []
+        for i, m in enumerate(members):
+            cname = "NoneType" if m is NoneType else getattr(typing.get_origin(m) or m, "__name__", "x")
+            lite.append(f"({coq_str(cname)}, {'None' if is_identity_packer(m) else f'Some {i + 1}%nat'})")
+        cases.append(f"([{'; '.join(lite)}], [{'; '.join(codes)}])")
+        info.append((expr, " ".join(codes)))
+        ctx.count(("k21", tuple(member_label(m) for m in members)))
+    ctx.hist("k21_validation", "compared", len(cases))
+    ctx.hist("k21_validation", "skipped-duplicate-expression", skipped)
+    corr(ctx, "K21-translation-vs-generated-source", cases, info, "list (string * option nat) * list pcode", ["k21case_ok"],
+         imports="UnionModel PackEmit K21Cases", gen_imports="From VerifGen Require Import K21.", needs=("theories/K21Cases.vo",))
+
+
+# ---------------------------------------------------------------------------
+# K22: the translated Literal loops vs the method texts the real generator produces
+# ---------------------------------------------------------------------------
+def k22_part(ctx: vlib.Ctx, mod):
+    import builtins
+    import enum as _enum
+    import mashumaro.core.meta.types.common as _common
+    import mashumaro.core.meta.types.pack as _pack
+    from mashumaro.core.meta.helpers import get_literal_values
+    if not ctx.kernel_report.get("K22", {}).get("ok", False):
+        ctx.not_shown("kernel K22", str(ctx.kernel_report.get("K22", {}).get("error")))
+        return
+    rng = ctx.rng
+    exprs = list(CURATED_LITS)
+    for _ in range(ctx.budget(60, 400)):
+        exprs.append(f"Literal[{', '.join(rng.sample(LIT_POOL, rng.choice([1, 2, 3, 4])))}]")
+    cases, info = [], []
+    for expr in exprs:
+        tp = eval(expr, mod.__dict__)
+        got = {"u": None, "p": None}
+
+        def rec(src, g=None, l=None):
+            if "def __unpack_literal_" in src:
+                got["u"] = src
+            if "def __pack_literal_" in src:
+                got["p"] = src
+            return builtins.exec(src, g, l)
+        olds = (_common.__dict__.get("exec"), _pack.__dict__.get("exec"))
+        _common.exec = _pack.exec = rec
+        try:
+            mod.__dict__["BasicDecoder"](tp)
+            mod.__dict__["BasicEncoder"](tp)
+        except Exception as e:
+            ctx.not_shown("kernel K22 validation", f"{expr}: {type(e).__name__}: {e}"[:300])
+            continue
+        finally:
+            for m_, o_ in ((_common, olds[0]), (_pack, olds[1])):
+                if o_ is None:
+                    del m_.exec
+                else:
+                    m_.exec = o_
+        if not got["u"] or not got["p"]:
+            ctx.not_shown("kernel K22 validation", f"no literal method compiled for {expr}")
+            continue
+
+        def codes(src):
+            out = []
+            for ln in [x.strip() for x in src.splitlines()[1:]]:
+                if re.match(r"if value\.__class__ is .+\]\.value\.__class__ and value == .+\]\.value:$", ln):
+                    out.append(0)
+                elif re.match(r"if value\.__class__ is [\w.]+ and value == [\w.]+\[.+\]:$", ln):
+                    out.append(0)
+                elif re.match(r"if value\.__class__ is \(.+\)\.__class__ and value == .+:$", ln):
+                    out.append(2)
+                elif ln == "try:":
+                    out.append(1)
+                elif ln.startswith("raise "):
+                    out.append(3)
+            return out
+        kinds = [0 if isinstance(l, _enum.Enum) else 1 if isinstance(l, bytes) else 2 for l in get_literal_values(tp)]
+        z = lambda xs: "[" + "; ".join(f"{x}%nat" for x in xs) + "]"
+        cases.append(f"({z(kinds)}, ({z(codes(got['u']))}, {z(codes(got['p']))}))")
+        info.append((expr, codes(got["u"]), codes(got["p"])))
+        ctx.count(("k22", tuple(kinds)))
+    corr(ctx, "K22-translation-vs-generated-source", cases, info, "list nat * (list nat * list nat)", ["k22case_ok"],
+         imports="UnionModel LitEmit K22Cases", gen_imports="From VerifGen Require Import K22.", needs=("theories/K22Cases.vo",))
+
+
 THEOREMS = [
     "C11_union_decode_partial", "C11_union_deviation_char", "C11_union_shadow_result", "C11_union_none_refuted",
     "C11_union_shadow_refuted", "C11_no_cross_coercion", "C11_scalars_first_no_shadow", "C11_union_result_from_member",
-    "C11_union_raises_iff", "C11_none_member_never_raises", "C11_deterministic", "C11_union_dedup_invisible", "C11_nested_union_partial", "C11_shape_positions", "C11_typevar_constraints_win", "C11_typevar_partial", "C11_deep_decode_partial", "C11_deep_decode_refuted", "C11_union_emit_correct", "C11_union_emitted_partial", "C11_opt",
+    "C11_union_raises_iff", "C11_none_member_never_raises", "C11_deterministic", "C11_union_dedup_invisible", "C11_nested_union_partial", "C11_shape_positions", "C11_typevar_constraints_win", "C11_typevar_partial", "C11_deep_decode_partial", "C11_deep_decode_refuted", "C11_union_emit_correct", "C11_union_emitted_partial", "C11_union_raise_class", "C11_pack_emit_correct", "C11_pack_emitted_partial", "C11_union_encode_ref", "C11_deep_encode_partial", "C11_deep_encode_refuted", "C11_opt",
     "C11_union_encode_partial", "C11_union_encode_refuted", "C11_literal_full", "C11_literal_encode_full",
-    "C11_literal_returns_listed", "C11_literal_accepts_listed",
+    "C11_literal_returns_listed", "C11_literal_accepts_listed", "C11_literal_emit_correct", "C11_literal_emitted_full",
+    "C11_literal_pack_emit_correct", "C11_literal_text_denotes",
 ]
 
 
@@ -1587,7 +1927,7 @@ def run(ctx: vlib.Ctx):
         "dataclass field, List element; inputs: 62 basic-form values of every scalar class, lists, dicts and garbage. "
         "distinct = (member mix in order, path, input class, verdict class, outcome). Literal: 1-4 listed values of "
         "int/bool/str/None/enum/bytes x 27 inputs.")
-    ctx.theorems("props/C11_union.vo", THEOREMS, kernels=["K19"])
+    ctx.theorems("props/C11_union.vo", THEOREMS, kernels=["K19", "K21", "K22"])
     ctx.trusted += [
         "UnionModel.v is hand-written from UnionUnpackerBuilder._add_body / pack_union / LiteralUnpackerBuilder / expr_or_maybe_none; "
         "tied to /repo only behaviourally (correspondence on every run), parametric in the member (un)packers whose behaviour is "
@@ -1616,7 +1956,10 @@ def run(ctx: vlib.Ctx):
     shapes_part(ctx, mod, mem)
     typevar_part(ctx, mod, mem)
     deep_part(ctx, mod, mem)
+    deep_enc_part(ctx, mod, mem)
     k19_part(ctx, mod)
+    k21_part(ctx, mod)
+    k22_part(ctx, mod)
 
 
 # ---------------------------------------------------------------------------
